@@ -198,7 +198,7 @@ PROPS = {
                              "which must not be used by another process while the check runs",
                              "the random source is scripted per draw by class (lowest / highest / middle / colliding port), whatever n the code asks for"]),
     "C18": dict(title="no lock-ups, leaked locks or teardown crashes under concurrency", level="model_checking",
-                run=core_run(["MC_steps", "MC_clienttxn", "MC_clienttxnLive"], ["GEN_steps", "GEN_tcpA", "GEN_lifeB", "GEN_clienttxnLA"]),
+                run=core_run(["MC_steps", "MC_clienttxn", "MC_clienttxnLive"], ["GEN_steps", "GEN_tcpA", "GEN_lifeB", "GEN_clienttxnA"]),
                 assumptions=["Engine G: TurnServerSteps.tla models a CreatePermission / ChannelBind handler and the permission, channel and allocation timer callbacks at the granularity of the code's scheduling marks "
                              "(verifhook.At calls and operator call-outs); TLC enumerates all 1308 interleavings from 28 initial situations and checks NoCrash, NoDeadlock, LocksBalanced, Answered; every interleaving is forced on the real server by parking each goroutine at its marks",
                              "after every step: lifecycle events so far, permission table; after every interleaving: response, tables, TryLock probes of every manager/allocation lock, one-hour drain; a panic in any goroutine kills the child and is reported with the interleaving; "
